@@ -942,7 +942,11 @@ def stepFrame (c : Cfg) (w : World) (f : Frame) : World :=
                      finalized := c.fin && w.finalizing }
     let w := { w with heap := w.heap.set id o, allocBytes := w.allocBytes + o.size }
     let w := w.emit (.alloc id o.size)
-    w.upd owner fun o => { o with cmap := some id }
+    -- the collection run by `Cc::new` may have re-entered `register` on this cleaner (from a finalizer): a map
+    -- stored meanwhile is kept and the one just allocated is dropped
+    match (w.heap owner).cmap with
+    | none => w.upd owner fun o => { o with cmap := some id }
+    | some _ => w.push (.dropCc id)
   | .regInsert owner script k cap =>
     match (w.heap owner).cmap with
     | none => { w with mode := .stuck }
